@@ -317,3 +317,28 @@ let show_touts (l : tout list) : string =
     | TInnerUnsub t -> Buffer.add_string b (Printf.sprintf "(iu %d)" (int_of_nat t))
     | TMark j -> Buffer.add_string b (Printf.sprintf "(m %d)" (int_of_nat j))) l;
   Buffer.contents b
+
+(* ---- async sources ---- *)
+let presult_of (s : sexp) : presult =
+  match head s with
+  | "p" -> PPending
+  | "i" -> PItem (val_of (List.hd (args s)))
+  | "f" -> PFail (zarg (List.hd (args s)))
+  | "end" -> PEnd
+  | h -> failwith ("bad poll result " ^ h)
+
+let akind_of = function
+  | "from_stream" -> AStream | "from_stream_result" -> AStreamResult
+  | "from_future" -> AFuture | "from_future_result" -> AFutureResult
+  | h -> failwith ("bad async kind " ^ h)
+
+let alab_of (s : sexp) : alab =
+  match atom s with "poll" -> APoll | "unsub" -> AUnsub | "closed" -> AClosed | h -> failwith ("bad async label " ^ h)
+
+let show_aouts (l : aout list) : string =
+  let b = Buffer.create 64 in
+  List.iteri (fun i o -> if i > 0 then Buffer.add_char b ' ';
+    match o with
+    | AOut e -> show_ev b e
+    | ARet x -> Buffer.add_string b (if x then "(rb #t)" else "(rb #f)")) l;
+  Buffer.contents b
